@@ -33,6 +33,12 @@ def tracks_read(e: ast.AST, tainted: set[str]) -> bool:
                 chain = norm(n.func)
                 if chain.startswith("tracks.") or chain.startswith("self.tracks."):
                     return True
+        if isinstance(n, ast.Call) and isinstance(n.func, ast.Name) and not n.func.id[:1].isupper() and any(norm(a) in ("tracks", "self.tracks") for a in n.args):
+            return True  # a helper function handed the tracks object
+        if isinstance(n, ast.Subscript):
+            chain = norm(n.value)
+            if chain.startswith("tracks.") or chain.startswith("self.tracks."):
+                return True
         if isinstance(n, ast.Name) and n.id in tainted:
             return True
     return False
@@ -217,21 +223,38 @@ def run(P: Program, R: Report, tier: str) -> None:
         # R01.6
         destructive = any("remove_node" in norm(n) or "remove_edge" in norm(n) for n in ast.walk(c.methods["_apply"].node)) if "_apply" in c.methods else False
         if destructive:
-            # the iteration (for loop or comprehension) that fills a captured field key by key
+            # the iteration (for loop or comprehension) that fills a captured field key by key - in the constructor,
+            # or in a helper function whose result is stored in the field
             iters = []
             for n in ast.walk(init.node):
                 if isinstance(n, ast.For) and any(self_field(t) in fields for s_ in ast.walk(n) if isinstance(s_, ast.Assign) for t in s_.targets):
-                    iters.append((n, n.iter))
+                    iters.append((n, n.iter, init))
                 elif isinstance(n, ast.Assign) and isinstance(n.value, (ast.DictComp, ast.ListComp)) and any(self_field(t) in fields for t in n.targets):
-                    iters.append((n, n.value.generators[0].iter))
-            attr_iters = [(n, it) for n, it in iters if "attr" in norm(n).lower()]
-            R.check(bool(attr_iters), "R01.6", init, init.node, f"{c.name} captures attribute values key by key from a registry view",
-                    "no capture iteration found", via="syntax")
-            for n, it_expr in attr_iters:
+                    iters.append((n, n.value.generators[0].iter, init))
+                elif isinstance(n, ast.Assign) and isinstance(n.value, ast.Call) and any(self_field(t) in fields and "attr" in (self_field(t) or "") for t in n.targets):
+                    tgt = P.resolve_call(n.value, P.local_env(init), init, count=False)
+                    if tgt and tgt[0] == "func":
+                        h = tgt[1][0]
+                        rets = {norm(r.value) for r in ast.walk(h.node) if isinstance(r, ast.Return) and r.value is not None}
+                        for hn in ast.walk(h.node):
+                            if isinstance(hn, ast.For) and any(isinstance(s_, ast.Assign) and isinstance(t, ast.Subscript) and norm(t.value) in rets
+                                                               for s_ in ast.walk(hn) if isinstance(s_, ast.Assign) for t in s_.targets):
+                                iters.append((n, hn.iter, h))
+                            elif isinstance(hn, ast.Return) and isinstance(hn.value, (ast.DictComp, ast.ListComp)):
+                                iters.append((n, hn.value.generators[0].iter, h))
+                            elif isinstance(hn, ast.Assign) and isinstance(hn.value, (ast.DictComp, ast.ListComp)) and any(norm(t) in rets for t in hn.targets):
+                                iters.append((n, hn.value.generators[0].iter, h))
+            attr_iters = [(n, it, h) for n, it, h in iters if "attr" in norm(n).lower()]
+            if not attr_iters and any("attr" in f_ for f_ in fields):
+                R.undecided("R01.6", init, init.node, f"{c.name} captures attribute values key by key from a registry view", "capture shape not recognised")
+            else:
+                R.check(bool(attr_iters), "R01.6", init, init.node, f"{c.name} captures attribute values key by key from a registry view",
+                        "no attribute capture found: the inverse cannot restore the element's attributes", via="syntax")
+            for n, it_expr, holder in attr_iters:
                 it = norm(it_expr)
                 # follow a local alias
                 if isinstance(it_expr, ast.Name):
-                    d_ = [x for x in ast.walk(init.node) if isinstance(x, ast.Assign) and any(isinstance(t, ast.Name) and t.id == it_expr.id for t in x.targets)]
+                    d_ = [x for x in ast.walk(holder.node) if isinstance(x, ast.Assign) and any(isinstance(t, ast.Name) and t.id == it_expr.id for t in x.targets)]
                     if len(d_) == 1:
                         it = norm(d_[0].value)
                 ok = ".features." in it and (it.startswith("self.tracks.") or it.startswith("tracks."))
@@ -324,15 +347,26 @@ def attr_truthiness(P: Program, R: Report, rule: str) -> None:
     for c in P.primitives():
         for m in c.methods.values():
             vals: set[str] = set()
+            stores_: set[str] = set()  # locals holding an element's attribute dict (graph.nodes[n] / graph.edges[e])
             for s in ast.walk(m.node):
-                if isinstance(s, ast.Assign) and isinstance(s.value, ast.Call) and call_name(s.value) in ATTR_READS:
+                if isinstance(s, ast.Assign) and isinstance(s.value, ast.Subscript) and any(norm(s.value.value).endswith(x) for x in ("graph.nodes", "graph.edges")):
+                    stores_ |= {t.id for t in s.targets if isinstance(t, ast.Name)}
+
+            def attr_read(e):
+                if isinstance(e, ast.Call) and call_name(e) in ATTR_READS:
+                    return True
+                if isinstance(e, ast.Call) and call_name(e) == "get" and isinstance(e.func, ast.Attribute) and isinstance(e.func.value, ast.Name) and e.func.value.id in stores_:
+                    return True
+                return isinstance(e, ast.Subscript) and isinstance(e.value, ast.Name) and e.value.id in stores_
+
+            for s in ast.walk(m.node):
+                if isinstance(s, ast.Assign) and attr_read(s.value):
                     vals |= {t.id for t in s.targets if isinstance(t, ast.Name)}
-                if isinstance(s, ast.NamedExpr) and isinstance(s.value, ast.Call) and call_name(s.value) in ATTR_READS:
+                if isinstance(s, ast.NamedExpr) and attr_read(s.value):
                     vals.add(s.target.id)
 
             def is_val(e):
-                return (isinstance(e, ast.Name) and e.id in vals) or (isinstance(e, ast.Call) and call_name(e) in ATTR_READS) or (
-                    isinstance(e, ast.NamedExpr) and is_val(e.value))
+                return (isinstance(e, ast.Name) and e.id in vals) or attr_read(e) or (isinstance(e, ast.NamedExpr) and is_val(e.value))
 
             for s in ast.walk(m.node):
                 tests = []
@@ -353,11 +387,11 @@ def attr_truthiness(P: Program, R: Report, rule: str) -> None:
                         n += 1
                         R.fail(rule, m, x, f"{c.name}: attribute value `{norm(x)[:50]}` is tested for absence with `is None`",
                                "tested by truthiness: a stored 0 / 0.0 / False / '' is treated as absent, is not captured, and the inverse restores the element without it")
-            if vals:
+            if vals or stores_:
                 n += 1
                 if not any(o.rule == rule and o.func == m.short and o.status == "violated" for o in R.obligations):
                     R.ok(rule, m, m.node, f"{m.short}: {len(vals)} attribute-valued local(s), none tested by truthiness", via="lint")
-    R.floor(rule, "primitive methods reading attribute values", n, 2)
+    R.floor(rule, "primitive methods reading attribute values", n, 1)
 
 
 def paint_flow_pixels(P: Program, R: Report, A: ActionAnalysis, rule: str) -> None:
